@@ -1,0 +1,24 @@
+//go:build verif
+
+package sqltypes
+
+// Contracts for govc (see /verif/DESIGN.md). Comments only.
+//
+// C17: every duration survives storage exactly. The stored text of an Interval is exactly Go's duration text
+// (durstr), and scanning that text gives back the same Interval. time.Duration.String / time.ParseDuration are
+// assumed to be exact inverses (intrinsic contract of package time); that Go's duration text is never mistaken for
+// a PostgreSQL interval (it contains no ':') is the assumption go_text_is_not_pg.
+
+//@ func (Interval).Value(i) (result, err)
+//@   property C17
+//@   ensures exact_text: err == nil && typeis(result, "string") && asstring(result) == durstr(i)
+//@   modifies B:string:
+
+//@ func (*Interval).Scan(i, src) (err)
+//@   property C17
+//@   requires i != nil
+//@   requires go_text_is_not_pg: forall d int :: {durstr(d)} !rematch(pgIntervalRegexp, durstr(d))
+//@   ensures roundtrip: forall d int :: {durstr(d)} typeis(src, "string") && asstring(src) == durstr(d) ==> err == nil && deref(i) == d
+//@   ensures nil_is_zero: !typeis(src, "string") && !typeis(src, "int64") && !typeis(src, "*int64") && !typeis(src, "time.Duration") && !typeis(src, "*time.Duration") && err == nil ==> deref(i) == 0
+//@   ensures failed_scan_keeps_value: typeis(src, "string") && err != nil ==> deref(i) == old(deref(i))
+//@   modifies B:sqltypes.Interval:
